@@ -20,11 +20,11 @@ WARM = None
 
 def plan(tier, seed):
     shards = []
-    k = 4 if tier == 'quick' else 10
+    k = 4 if tier == 'quick' else 24
     for i in range(k):
         shards.append({'name': 'cms-%d' % i, 'fn': 'shard_cms', 'args': {'part': i}})
     shards.append({'name': 'cms-boundscheck', 'fn': 'shard_cms', 'args': {'part': 100}, 'env': {'NUMBA_BOUNDSCHECK': '1'}})
-    for i in range(2 if tier == 'quick' else 6):
+    for i in range(2 if tier == 'quick' else 16):
         shards.append({'name': 'counter-%d' % i, 'fn': 'shard_counter', 'args': {'part': i}})
     return shards
 
